@@ -556,6 +556,19 @@ def r15_8(ctx, g):
             raise AnalysisError("R15.8", ac.where(l), f"the search loop of all_components iterates `{norm(l.iter)[:40]}` / calls find_component with something else than the loop's node")
         ok = it_ok and guarded and reset and appended
     ctx.check(ok, "R15.8", ac.where(), "all_components searches from every node that is still unvisited, collects each result, and resets the visited flags afterwards (a second call sees a clean graph)", key_of(ac, "all-components-shape"))
+    # a start node without neighbours is a component (a traversal) of its own: the early return hands it back
+    for f in (fc, dfs):
+        start = [p_ for p_ in f.params if p_ != "self"][0]
+        for st in f.node.body:
+            if isinstance(st, ast.If) and "neighbors" in norm(st.test) and any(isinstance(r, ast.Return) for r in st.body):
+                r = [r for r in st.body if isinstance(r, ast.Return)][0]
+                v = r.value
+                ok = False
+                if isinstance(v, (ast.List, ast.Set, ast.Tuple)) and [norm(e) for e in v.elts] == [start]:
+                    ok = True
+                elif isinstance(v, ast.Name):
+                    ok = any(isinstance(x, ast.Expr) and isinstance(x.value, ast.Call) and isinstance(x.value.func, ast.Attribute) and x.value.func.attr in ("add", "append") and norm(x.value.func.value) == v.id and [norm(a) for a in x.value.args] == [start] for x in st.body)
+                ctx.check(ok, "R15.8", f.where(st), f"{f.name}: a start node without neighbours is returned as a component / traversal of its own", key_of(f, f"isolated-start:{norm(v) if v is not None else None}"))
     # find_component / dfs: pop -> add to result once -> expand neighbors()
     for f, res_kind in ((fc, "set"), (dfs, "list")):
         wl = [l for l in f.node.body if isinstance(l, ast.While)]
